@@ -78,6 +78,28 @@ struct SmallHash
 	}
 };
 
+// a digest that is a class type, not convertible to std::size_t: the library then hashes an id through std::hash<DigestType>.
+// 4 type tags x 4 value classes = 16 digests, and std::hash<PairDigest> maps them onto 4 hash values only: ids whose digests
+// differ very often hash alike (ordering and equality must keep them apart all the same), ids with equal digests always do
+struct PairDigest
+{
+	unsigned tag, h;
+	explicit operator long long () const { return ((long long)tag << 8) | (long long)h; }
+};
+inline bool operator == (const PairDigest & a, const PairDigest & b) { return a.tag == b.tag && a.h == b.h; }
+inline bool operator < (const PairDigest & a, const PairDigest & b) { return a.tag != b.tag ? a.tag < b.tag : a.h < b.h; }
+namespace std { template <> struct hash<PairDigest> { std::size_t operator() (const PairDigest & d) const noexcept { return (std::size_t)(d.h ^ d.tag); } }; }
+static_assert(! std::is_convertible<PairDigest, std::size_t>::value, "PairDigest must not convert to size_t");
+template <typename T>
+struct PairHash
+{
+	PairDigest operator() (const T & v) const {
+		const std::size_t x = std::hash<T>()(v);
+		PairDigest d; d.tag = TypeSalt<T>::value; d.h = (unsigned)((x ^ (x >> 7)) % 4u);
+		return d;
+	}
+};
+
 // ------------------------------------------------------------------ storages
 static uint64_t gEqCalls = 0, gLtCalls = 0;
 
@@ -181,14 +203,17 @@ typedef Cfg<std::hash, NStore, false> Cfg4;
 typedef Cfg<SmallHash, NStore, false> Cfg5;
 typedef Cfg<std::hash, TStore, true> Cfg6;
 typedef Cfg<SmallHash, TStore, true> Cfg7;
-enum { NCFG = 8 };
+typedef Cfg<PairHash, VStore, true> Cfg8;
+typedef Cfg<PairHash, eventpp::EmptyAnyStorage, false> Cfg9;
+enum { NCFG = 10 };
 static const char * kCfgName[NCFG] = {
 	"AnyId<std::hash,VStore>", "AnyId<SmallHash,VStore>",
 	"AnyId<std::hash,EmptyAnyStorage>", "AnyId<SmallHash,EmptyAnyStorage>",
 	"AnyId<std::hash,NStore>", "AnyId<SmallHash,NStore>",
-	"AnyId<std::hash,TStore(normalising)>", "AnyId<SmallHash,TStore(normalising)>"
+	"AnyId<std::hash,TStore(normalising)>", "AnyId<SmallHash,TStore(normalising)>",
+	"AnyId<PairHash(class-type digest),VStore>", "AnyId<PairHash(class-type digest),EmptyAnyStorage>"
 };
-static const char * kStoreName[NCFG] = { "VStore", "VStore", "Empty", "Empty", "NStore", "NStore", "TStore", "TStore" };
+static const char * kStoreName[NCFG] = { "VStore", "VStore", "Empty", "Empty", "NStore", "NStore", "TStore", "TStore", "VStore", "Empty" };
 
 // ------------------------------------------------------------------ pool generation
 static std::string showVal(const PoolVal & v)
@@ -664,6 +689,8 @@ static void runCase(uint64_t caseNo, Rng & rng)
 	case 5: runCfg<Cfg5>(rng, caseNo, 5); break;
 	case 6: runCfg<Cfg6>(rng, caseNo, 6); break;
 	case 7: runCfg<Cfg7>(rng, caseNo, 7); break;
+	case 8: runCfg<Cfg8>(rng, caseNo, 8); break;
+	case 9: runCfg<Cfg9>(rng, caseNo, 9); break;
 	default: --ctx().casesRun; break;
 	}
 }
